@@ -2,7 +2,7 @@
     Property theorems only. *)
 From Coq Require Import ZArith List Bool.
 From PV Require Import Model.Base Model.Sched Model.Seq.
-From PV Require Gen.Pure Model.Chan Proofs.PureEq.
+From PV Require Gen.Pure Gen.PureLoops Model.Chan Proofs.PureEq Proofs.PureLoopsEq.
 From PV Require Import Proofs.SchedInv Proofs.ConflictSpec Proofs.RetargetSpec Proofs.RetargetWitness.
 Import ListNotations.
 Open Scope Z_scope.
@@ -93,3 +93,22 @@ Theorem C10_source_phase_jump_time :
       Gen.Pure.gen_phase_jump_time (Gen.Pure.gen_rise_time (Chan.r_bw r)) (Chan.r_cpj r).
 Proof. exact PureEq.mk_ccfg_times. Qed.
 Print Assumptions C10_source_phase_jump_time.
+
+(** ... and the two searches the retarget and phase-jump rules start from: the
+    loops regenerated from _ChannelSchedule.last_target and
+    _ChannelSchedule.last_pulse_slot compute the model's functions for every
+    list of slots. *)
+Theorem C10_source_last_target :
+  forall slots : list slot, Gen.PureLoops.gen_last_target slots = last_target slots.
+Proof. exact PureLoopsEq.last_target_eq. Qed.
+Print Assumptions C10_source_last_target.
+
+Theorem C10_source_last_pulse_slot :
+  forall (slots : list slot) (ignore_detuned_delay : bool),
+    Gen.PureLoops.gen_last_pulse_slot slots ignore_detuned_delay =
+    match last_pulse_slot ignore_detuned_delay slots with
+    | Some (s, _) => Ok s
+    | None => Err ERuntime
+    end.
+Proof. exact PureLoopsEq.last_pulse_slot_eq. Qed.
+Print Assumptions C10_source_last_pulse_slot.
